@@ -12,7 +12,8 @@ Copulas (all built through rpylib.model.utils: create_clayton_copula / create_in
     in the quick tier a twin gets one slice of the 3-d rectangle lattices and two of the six 2-d margins).  Routes:
         set               built with other (theta, eta), both attributes re-assigned before any use
         use-set           built with other values, every public entry point used (d = 2 and 3, all orthants, volume / margin
-                          operators, conditional distribution, inverse, derivative, repr), then theta and eta re-assigned
+                          operators, conditional distribution, inverse, derivative, repr; also at every point the
+                          sub-check `history` observes afterwards), then theta and eta re-assigned
         use-set-eta-first same, eta assigned before theta;   set-theta / set-eta: only one of the two attributes changes
         round-trip        built with the target values, used, re-assigned to other values, used, re-assigned back
         other-between     a second object of the class is built, used, re-parametrised and used in between (class-level state)
@@ -59,7 +60,7 @@ Sub-checks (alphabet / oracle)
                 integer array, keyword arguments, index sets of margin() as list / tuple / array, its argument as list /
                 tuple / array / integer list, the corners of volume() as lists / tuples / arrays / integer lists; the
                 vectorised inverse against element-wise calls, against the reversed arrays, a scalar first argument against
-                the full array, no element (shape (0,)).  Same object, same parameters, same floating-point operations:
+                the full array, no element (shape (0,)), one call with more than 65536 elements.  Same object, same parameters, same floating-point operations:
                 exact equality, 1e-13 relative where an integer is converted on the way, 1e-9 relative between vectorised
                 and element-wise evaluations of the inverse (numpy may use another pow kernel; the inverse amplifies one ulp
                 of c^(-theta/(1+theta)) - 1 by up to 1e6 at u = 1 - 1e-6).  An accepted form that raises is a violation;
@@ -294,11 +295,11 @@ def cases(tier):
     cops = _copulas(tier) + _twins(tier)
     out = []
     for c in cops:
+        out.append({"sub": "args", "copula": c})
+    for c in cops:
         for d in (2, 3):
             out.append({"sub": "grounded", "copula": c, "dim": d})
             out.append({"sub": "margin1", "copula": c, "dim": d})
-    for c in cops:
-        out.append({"sub": "args", "copula": c})
     for c in cops:
         out.append({"sub": "volume", "copula": c, "dim": 2, "alphabet": "A8", "first": None, "margin_options": True})
     # differential histories: every (from -> to) pair of the parameter menu x every route, against a fresh object
@@ -395,6 +396,9 @@ def _use(cop, clayton):
         cop.x_first_derivative(np.array([0.2, -5.0]))
         cop.x_first_derivative(np.array([1.0, 0.2, -1.0]))
     repr(cop)
+    # ... and at every point the sub-check `history` observes later (a value remembered per argument is then remembered
+    # with the parameters of this moment)
+    _observe(cop, clayton)
 
 
 def _assign(obj, **kw):
@@ -1415,6 +1419,9 @@ def _sub_args(sh, case):
             e_big[:, 0], u_big[:, 0] = es, us
             A.form(fn, "strided-views", ref, lambda: inv(e_big[:, 0], u_big[:, 0]), ("E", "U"), rtol=1e-9, eps=e_big, x=u_big)
             A.form(fn, "reversed-order", ref[::-1], lambda: inv(es[::-1], us[::-1]), ("E", "U"), rtol=1e-9, eps=es, x=us)
+            reps = -(-70000 // len(us))  # one call beyond 65536 elements
+            e_long, u_long = np.tile(es, reps), np.tile(us, reps)
+            A.form(fn, "long-arrays", np.tile(ref, reps), lambda: inv(e_long, u_long), ("E x %d" % reps, "U"), rtol=1e-9, eps=e_long, x=u_long)
             r = inv(es, us)
             keep = _snap(r) if isinstance(r, np.ndarray) else None
             es[:] = 3.0  # the caller re-uses its arrays
